@@ -468,9 +468,9 @@ Qed.
 Section ExprInv.
 Context {A : Type}.
 Variable t : text.
-Variable hook : walker -> pres (span * A).
+Variable hook : nat -> walker -> pres (span * A).
 Variable Pay : span * A -> Prop.
-Hypothesis Hhook : forall w r w', wf t w -> hook w = POk r w' -> ext w w' /\ Pay r.
+Hypothesis Hhook : forall d w r w', wf t w -> hook d w = POk r w' -> ext w w' /\ Pay r.
 
 Definition PayE (e : gexpr A) : Prop := Forall Pay (gexpr_payloads e).
 
@@ -560,8 +560,9 @@ Ltac pstep t :=
   | H : xexpect_linebreak ?w = POk _ ?w' |- _ => apply xexpect_linebreak_ext in H; have_wf t w'
   end.
 
-(* ---------- one-step unfoldings (generated from Model/AsmParser.v by copying the `S f` branches; checked by reflexivity) ---------- *)
-Lemma gparse_expr_S {A} (hook : walker -> pres (span * A)) f (depth : nat) (w : walker) : gparse_expr hook (S f) depth w =
+(* BEGIN generated unfoldings *)
+(* one-step unfoldings, generated by tools/asmparser_unfold.py from Model/AsmParser.v (the `S f` branches copied); checked by reflexivity *)
+Lemma gparse_expr_S {A} (hook : nat -> walker -> pres (span * A)) f (depth : nat) (w : walker) : gparse_expr hook (S f) depth w =
     let depth := S depth in
     if Nat.ltb PARSE_DEPTH_MAX depth then PErr else
     do (c, w) <- gparse_assign hook f depth w;
@@ -575,14 +576,14 @@ Lemma gparse_expr_S {A} (hook : walker -> pres (span * A)) f (depth : nat) (w : 
     | None => POk c w
     end.
 Proof. reflexivity. Qed.
-Lemma gparse_assign_S {A} (hook : walker -> pres (span * A)) f (depth : nat) (w : walker) : gparse_assign hook (S f) depth w =
+Lemma gparse_assign_S {A} (hook : nat -> walker -> pres (span * A)) f (depth : nat) (w : walker) : gparse_assign hook (S f) depth w =
     do (l, w) <- gparse_levels hook f depth level_ops w;
     match xmaybe_expect w TEqual with
     | Some (w, _) => do (r, w) <- gparse_expr hook f depth w; POk (GBin Assign l r) w
     | None => POk l w
     end.
 Proof. reflexivity. Qed.
-Lemma gparse_levels_S {A} (hook : walker -> pres (span * A)) f (depth : nat) (lv : list (list (tkind * binop))) (w : walker) : gparse_levels hook (S f) depth lv w =
+Lemma gparse_levels_S {A} (hook : nat -> walker -> pres (span * A)) f (depth : nat) (lv : list (list (tkind * binop))) (w : walker) : gparse_levels hook (S f) depth lv w =
     match lv with
     | [] => gparse_slice hook f depth w
     | ops :: inner =>
@@ -590,14 +591,14 @@ Lemma gparse_levels_S {A} (hook : walker -> pres (span * A)) f (depth : nat) (lv
       gbinary_loop hook f depth ops inner l w
     end.
 Proof. reflexivity. Qed.
-Lemma gbinary_loop_S {A} (hook : walker -> pres (span * A)) f (depth : nat) (ops : list (tkind * binop)) (inner : list (list (tkind * binop))) (l : gexpr A) (w : walker) : gbinary_loop hook (S f) depth ops inner l w =
+Lemma gbinary_loop_S {A} (hook : nat -> walker -> pres (span * A)) f (depth : nat) (ops : list (tkind * binop)) (inner : list (list (tkind * binop))) (l : gexpr A) (w : walker) : gbinary_loop hook (S f) depth ops inner l w =
     if xat_linebreak w then POk l w else
     match xfind_op w ops with
     | Some (w, o) => do (r, w) <- gparse_levels hook f depth inner w; gbinary_loop hook f depth ops inner (GBin o l r) w
     | None => POk l w
     end.
 Proof. reflexivity. Qed.
-Lemma gparse_slice_S {A} (hook : walker -> pres (span * A)) f (depth : nat) (w : walker) : gparse_slice hook (S f) depth w =
+Lemma gparse_slice_S {A} (hook : nat -> walker -> pres (span * A)) f (depth : nat) (w : walker) : gparse_slice hook (S f) depth w =
     do (e, w) <- gparse_short hook f depth w;
     if xat_linebreak w then POk e w else
     match xmaybe_expect w TBracketOpen with
@@ -610,7 +611,7 @@ Lemma gparse_slice_S {A} (hook : walker -> pres (span * A)) f (depth : nat) (w :
     | None => POk e w
     end.
 Proof. reflexivity. Qed.
-Lemma gparse_short_S {A} (hook : walker -> pres (span * A)) f (depth : nat) (w : walker) : gparse_short hook (S f) depth w =
+Lemma gparse_short_S {A} (hook : nat -> walker -> pres (span * A)) f (depth : nat) (w : walker) : gparse_short hook (S f) depth w =
     do (e, w) <- gparse_unary hook f depth w;
     if xat_linebreak w then POk e w else
     match xmaybe_expect w TGrave with
@@ -618,7 +619,7 @@ Lemma gparse_short_S {A} (hook : walker -> pres (span * A)) f (depth : nat) (w :
     | None => POk e w
     end.
 Proof. reflexivity. Qed.
-Lemma gparse_unary_S {A} (hook : walker -> pres (span * A)) f (depth : nat) (w : walker) : gparse_unary hook (S f) depth w =
+Lemma gparse_unary_S {A} (hook : nat -> walker -> pres (span * A)) f (depth : nat) (w : walker) : gparse_unary hook (S f) depth w =
     match xmaybe_expect w TExclamation with
     | Some (w, _) => if Nat.ltb PARSE_DEPTH_MAX (S depth) then PErr else do (e, w) <- gparse_unary hook f (S depth) w; POk (GUn Not e) w
     | None =>
@@ -628,7 +629,7 @@ Lemma gparse_unary_S {A} (hook : walker -> pres (span * A)) f (depth : nat) (w :
       end
     end.
 Proof. reflexivity. Qed.
-Lemma gparse_call_S {A} (hook : walker -> pres (span * A)) f (depth : nat) (w : walker) : gparse_call hook (S f) depth w =
+Lemma gparse_call_S {A} (hook : nat -> walker -> pres (span * A)) f (depth : nat) (w : walker) : gparse_call hook (S f) depth w =
     do (l, w) <- gparse_leaf hook f depth w;
     if xat_linebreak w then POk l w else
     match xmaybe_expect w TParenOpen with
@@ -639,14 +640,14 @@ Lemma gparse_call_S {A} (hook : walker -> pres (span * A)) f (depth : nat) (w : 
       POk (GCall l args) w
     end.
 Proof. reflexivity. Qed.
-Lemma gparse_args_S {A} (hook : walker -> pres (span * A)) f (depth : nat) (w : walker) (acc : list (gexpr A)) : gparse_args hook (S f) depth w acc =
+Lemma gparse_args_S {A} (hook : nat -> walker -> pres (span * A)) f (depth : nat) (w : walker) (acc : list (gexpr A)) : gparse_args hook (S f) depth w acc =
     if xnext_useful_is w TParenClose then POk (rev acc) w else
     do (e, w) <- gparse_expr hook f depth w;
     if xnext_useful_is w TParenClose then POk (rev (e :: acc)) w else
     do (_x, w) <- xexpect w TComma;
     gparse_args hook f depth w (e :: acc).
 Proof. reflexivity. Qed.
-Lemma gparse_leaf_S {A} (hook : walker -> pres (span * A)) f (depth : nat) (w : walker) : gparse_leaf hook (S f) depth w =
+Lemma gparse_leaf_S {A} (hook : nat -> walker -> pres (span * A)) f (depth : nat) (w : walker) : gparse_leaf hook (S f) depth w =
     if xnext_useful_is w TBraceOpen then
       do (_x, w) <- xexpect w TBraceOpen;
       do (es, w) <- gparse_block hook f depth w [];
@@ -666,12 +667,12 @@ Lemma gparse_leaf_S {A} (hook : walker -> pres (span * A)) f (depth : nat) (w : 
       do (t, w) <- xexpect w TString;
       match string_contents t with Some _ => POk (GStr t) w | None => PErr end
     else if xnext_useful_is w TKeywordAsm then
-      do (p, w) <- hook w; POk (GAsm (fst p) (snd p)) w
+      do (p, w) <- hook depth w; POk (GAsm (fst p) (snd p)) w
     else if xnext_useful_is w TKeywordTrue then do (_x, w) <- xexpect w TKeywordTrue; POk (GBool true) w
     else if xnext_useful_is w TKeywordFalse then do (_x, w) <- xexpect w TKeywordFalse; POk (GBool false) w
     else PErr.
 Proof. reflexivity. Qed.
-Lemma gparse_block_S {A} (hook : walker -> pres (span * A)) f (depth : nat) (w : walker) (acc : list (gexpr A)) : gparse_block hook (S f) depth w acc =
+Lemma gparse_block_S {A} (hook : nat -> walker -> pres (span * A)) f (depth : nat) (w : walker) (acc : list (gexpr A)) : gparse_block hook (S f) depth w acc =
     if xnext_useful_is w TBraceClose then POk (rev acc) w else
     do (e, w) <- gparse_expr hook f depth w;
     match xnext_linebreak w with
@@ -682,14 +683,14 @@ Lemma gparse_block_S {A} (hook : walker -> pres (span * A)) f (depth : nat) (w :
       gparse_block hook f depth w (e :: acc)
     end.
 Proof. reflexivity. Qed.
-Lemma gparse_var_dots_S {A} (hook : walker -> pres (span * A)) f (w : walker) (level : N) : gparse_var_dots hook (S f) w level =
+Lemma gparse_var_dots_S {A} (hook : nat -> walker -> pres (span * A)) f (w : walker) (level : N) : gparse_var_dots hook (S f) w level =
     if xat_linebreak w then gparse_var_names hook f w level [] else
     match xmaybe_expect w TDot with
     | Some (w, _) => gparse_var_dots hook f w (level + 1)
     | None => gparse_var_names hook f w level []
     end.
 Proof. reflexivity. Qed.
-Lemma gparse_var_names_S {A} (hook : walker -> pres (span * A)) f (w : walker) (level : N) (acc : list text) : gparse_var_names hook (S f) w level acc =
+Lemma gparse_var_names_S {A} (hook : nat -> walker -> pres (span * A)) f (w : walker) (level : N) (acc : list text) : gparse_var_names hook (S f) w level acc =
     do (name, w) <- xexpect w TIdentifier;
     if xat_linebreak w then POk (GVar level (rev (name :: acc))) w else
     match xmaybe_expect w TDot with
@@ -697,14 +698,14 @@ Lemma gparse_var_names_S {A} (hook : walker -> pres (span * A)) f (w : walker) (
     | None => POk (GVar level (rev (name :: acc))) w
     end.
 Proof. reflexivity. Qed.
-Lemma data_elems_S hook f g (w : walker) (acc : list xexpr) : data_elems hook f (S g) w acc =
-    do (e, w) <- pexpr hook f w;
+Lemma data_elems_S hook f ed g (w : walker) (acc : list xexpr) : data_elems hook f ed (S g) w acc =
+    do (e, w) <- pexpr hook f ed w;
     match xmaybe_expect w TComma with
     | None => POk (rev (e :: acc)) w
-    | Some (w, _) => if xat_linebreak w then POk (rev (e :: acc)) w else data_elems hook f g w (e :: acc)
+    | Some (w, _) => if xat_linebreak w then POk (rev (e :: acc)) w else data_elems hook f ed g w (e :: acc)
     end.
 Proof. reflexivity. Qed.
-Lemma parse_fields_S hook f g (w : walker) (acc : list afield) : parse_fields hook f (S g) w acc =
+Lemma parse_fields_S hook f ed g (w : walker) (acc : list afield) : parse_fields hook f ed (S g) w acc =
     if xnext_useful_is w TBraceClose then POk (rev acc) w else
     let '(w, hash) := match xmaybe_expect w THash with Some (w', _) => (w', true) | None => (w, false) end in
     do (nm, w) <- xexpect_sp w TIdentifier;
@@ -712,23 +713,23 @@ Lemma parse_fields_S hook f g (w : walker) (acc : list afield) : parse_fields ho
     let cont (oe : option xexpr) (w : walker) : pres (list afield) :=
       let acc' := (snd nm, fst nm, oe) :: acc in
       match xmaybe_expect w TComma with
-      | Some (w, _) => parse_fields hook f g w acc'
+      | Some (w, _) => parse_fields hook f ed g w acc'
       | None => match xnext_linebreak w with
-                | Some w => parse_fields hook f g w acc'
+                | Some w => parse_fields hook f ed g w acc'
                 | None => POk (rev acc') w
                 end
       end in
-    if hash && negb (xat_linebreak w) then do (e, w) <- pexpr hook f w; cont (Some e) w
+    if hash && negb (xat_linebreak w) then do (e, w) <- pexpr hook f ed w; cont (Some e) w
     else match xmaybe_expect w TEqual with
-         | Some (w, _) => do (e, w) <- pexpr hook f w; cont (Some e) w
+         | Some (w, _) => do (e, w) <- pexpr hook f ed w; cont (Some e) w
          | None => cont None w
          end.
 Proof. reflexivity. Qed.
-Lemma parse_arules_S hook f g (is_sub : bool) (w : walker) (acc : list (arule xexpr)) : parse_arules hook f (S g) is_sub w acc =
+Lemma parse_arules_S hook f ed g (is_sub : bool) (w : walker) (acc : list (arule xexpr)) : parse_arules hook f ed (S g) is_sub w acc =
     if xnext_useful_is w TBraceClose then POk (rev acc) w else
-    do (r, w) <- parse_arule hook f is_sub w;
+    do (r, w) <- parse_arule hook f ed is_sub w;
     do (_u, w) <- xexpect_linebreak w;
-    parse_arules hook f g is_sub w (r :: acc).
+    parse_arules hook f ed g is_sub w (r :: acc).
 Proof. reflexivity. Qed.
 Lemma parse_dots_S f (w : walker) (level : N) (sp : ospan) : parse_dots (S f) w level sp =
     match xmaybe_expect_sp w TDot with
@@ -760,64 +761,65 @@ Lemma apattern_S f (is_sub : bool) (w : walker) (sp : ospan) (pat : list apart) 
     else if tkind_eqb k TWhitespace then apattern f is_sub w sp (AWs :: pat)
     else PErr.
 Proof. reflexivity. Qed.
-Lemma parse_lines_S f (bd : nat) (nested : bool) (w : walker) (acc : list anode) : parse_lines (S f) bd nested w acc =
+Lemma parse_lines_d_S f (bd : nat) (ed : nat) (nested : bool) (w : walker) (acc : list anode) : parse_lines_d (S f) bd ed nested w acc =
     if xover w then POk (rev acc) w
     else if nested && xnext_useful_is w TBraceClose then POk (rev acc) w
     else
-      do (on, w) <- parse_line f bd w;
-      parse_lines f bd nested w (match on with Some n => n :: acc | None => acc end).
+      do (on, w) <- parse_line_d f bd ed w;
+      parse_lines_d f bd ed nested w (match on with Some n => n :: acc | None => acc end).
 Proof. reflexivity. Qed.
-Lemma parse_line_S f (bd : nat) (w : walker) : parse_line (S f) bd w =
+Lemma parse_line_d_S f (bd : nat) (ed : nat) (w : walker) : parse_line_d (S f) bd ed w =
     if xnext_useful_is w THash then
       do (h, w) <- xexpect_sp w THash;
       do (nm, w) <- xexpect_sp w TIdentifier;
       let header := join_s (fst h) (fst nm) in
       match classify (map to_lower (snd nm)) with
-      | DIf => do (n, w) <- parse_if f bd header w; POk (Some n) w
-      | k => do (n, w) <- parse_directive (asm_hook f bd) f k header w; POk (Some n) w
+      | DIf => do (n, w) <- parse_if_d f bd ed header w; POk (Some n) w
+      | k => do (n, w) <- parse_directive (asm_hook f bd) f ed k header w; POk (Some n) w
       end
     else if (xnext_useful_is w TIdentifier && (xnext_useful_is1 w TColon || xnext_useful_is1 w TEqual)) || xnext_useful_is w TDot then
-      do (n, w) <- parse_symbol (asm_hook f bd) f w; POk (Some n) w
+      do (n, w) <- parse_symbol (asm_hook f bd) f ed w; POk (Some n) w
     else
       match xnext_linebreak w with
       | Some w' => POk None w'
       | None => do (n, w) <- parse_instruction w; POk (Some n) w
       end.
 Proof. reflexivity. Qed.
-Lemma parse_if_S f (bd : nat) (header : span) (w : walker) : parse_if (S f) bd header w =
-    do (c, w) <- gparse_expr (asm_hook f bd) f 0 w;
-    do (t, w) <- parse_braced f bd w;
-    do (e, w) <- parse_else f bd w;
+Lemma parse_if_d_S f (bd : nat) (ed : nat) (header : span) (w : walker) : parse_if_d (S f) bd ed header w =
+    do (c, w) <- gparse_expr (asm_hook f bd) f ed w;
+    do (t, w) <- parse_braced_d f bd ed w;
+    do (e, w) <- parse_else_d f bd ed w;
     POk (NIf header c t e) w.
 Proof. reflexivity. Qed.
-Lemma parse_braced_S f (bd : nat) (w : walker) : parse_braced (S f) bd w =
+Lemma parse_braced_d_S f (bd : nat) (ed : nat) (w : walker) : parse_braced_d (S f) bd ed w =
     do (_b, w) <- xexpect w TBraceOpen;
     if Nat.leb PARSE_DEPTH_MAX bd then PErr else           (* "block nesting depth limit reached" *)
-    do (ns, w) <- parse_lines f (S bd) true w [];
+    do (ns, w) <- parse_lines_d f (S bd) ed true w [];
     do (_c, w) <- xexpect w TBraceClose;
     POk ns w.
 Proof. reflexivity. Qed.
-Lemma parse_else_S f (bd : nat) (w : walker) : parse_else (S f) bd w =
+Lemma parse_else_d_S f (bd : nat) (ed : nat) (w : walker) : parse_else_d (S f) bd ed w =
     if negb (xnext_useful_is w THash) || negb (xnext_useful_is1 w TIdentifier) then POk None w else
     let name := xnext_useful1_text w in
     if text_eqb name nm_else then
       do (_h, w) <- xexpect w THash;
       do (_n, w) <- xexpect w TIdentifier;
-      do (b, w) <- parse_braced f bd w;
+      do (b, w) <- parse_braced_d f bd ed w;
       POk (Some b) w
     else if text_eqb name nm_elif then
       do (h, w) <- xexpect_sp w THash;
       do (nm, w) <- xexpect_sp w TIdentifier;
-      do (n, w) <- parse_if f bd (join_s (fst h) (fst nm)) w;
+      do (n, w) <- parse_if_d f bd ed (join_s (fst h) (fst nm)) w;
       POk (Some [n]) w
     else POk None w.
 Proof. reflexivity. Qed.
-Lemma asm_hook_S f (bd : nat) (w : walker) : asm_hook (S f) bd w =
+Lemma asm_hook_S f (bd : nat) (depth : nat) (w : walker) : asm_hook (S f) bd depth w =
     do (a, w) <- xexpect_sp w TKeywordAsm;
     do (_b, w) <- xexpect w TBraceOpen;
     let n := closing_brace_len (tail w) 0 in
     let inner := {| tail := take_bytes n (tail w); cur := cur w; lim := cur w + n |} in
-    match parse_lines f bd true inner [] with
+    if Nat.leb PARSE_DEPTH_MAX bd then PErr else           (* "block nesting depth limit reached": shared with #if *)
+    match parse_lines_d f (S bd) depth true inner [] with  (* inner.expr_nesting_depth = self.recursion_depth *)
     | POk ns _ =>
       let w := advance w n in
       do (c, w) <- xexpect_sp w TBraceClose;
@@ -826,14 +828,15 @@ Lemma asm_hook_S f (bd : nat) (w : walker) : asm_hook (S f) bd w =
     | PFuel => PFuel
     end.
 Proof. reflexivity. Qed.
+(* END generated unfoldings *)
 
 (* ---------- D (continued): the invariant of the expression parser ---------- *)
 Section ExprInvProof.
 Context {A : Type}.
 Variable t : text.
-Variable hook : walker -> pres (span * A).
+Variable hook : nat -> walker -> pres (span * A).
 Variable Pay : span * A -> Prop.
-Hypothesis Hhook : forall w r w', wf t w -> hook w = POk r w' -> ext w w' /\ Pay r.
+Hypothesis Hhook : forall d w r w', wf t w -> hook d w = POk r w' -> ext w w' /\ Pay r.
 
 Ltac efin :=
   split; [ext_chain|];
@@ -860,7 +863,7 @@ Ltac efin :=
 Ltac eside := solve [auto | apply payE_bin; auto | constructor; auto].
 Ltac use_ih :=
   match goal with
-  | H : hook ?w0 = POk _ ?w' |- _ => apply Hhook in H; [destruct H; have_wf t w' | assumption]
+  | H : hook ?d0 ?w0 = POk _ ?w' |- _ => apply Hhook in H; [destruct H; have_wf t w' | assumption]
   | H : _ = POk _ ?w', IH : forall _ : nat, _ |- _ => apply IH in H; [destruct H; have_wf t w' | eside ..]
   | H : _ = POk _ ?w', IH : forall _ : walker, _ |- _ => apply IH in H; [destruct H; have_wf t w' | eside ..]
   end.
@@ -901,11 +904,12 @@ Variable t : text.
 (* node_ok bd n: every span of the node is valid, and so is everything below it (#if arms, asm blocks inside its
    expressions); bd is the block nesting depth (Walker::block_nesting_depth) at which the node was parsed: an #if node
    exists only below the limit, its true arm lives one level deeper, its false arm at the same level (#elif) or one
-   level deeper (#else { .. }) *)
+   level deeper (#else { .. }); the body of an asm block inside one of its expressions lives one level deeper too *)
 Inductive node_ok : nat -> anode -> Prop :=
 | node_ok_intro bd n :
     Forall (vspan t) (node_spans n) ->
-    (forall e asp body, In e (exprs_of n) -> In (asp, body) (gexpr_payloads e) -> vspan t asp /\ Forall (node_ok bd) body) ->
+    (forall e asp body, In e (exprs_of n) -> In (asp, body) (gexpr_payloads e) ->
+        vspan t asp /\ (bd < PARSE_DEPTH_MAX)%nat /\ Forall (node_ok (S bd)) body) ->
     (forall sp c tr fl, n = NIf sp c tr fl ->
         (bd < PARSE_DEPTH_MAX)%nat /\ Forall (node_ok (S bd)) tr /\
         (forall fa, fl = Some fa -> Forall (node_ok bd) fa \/ Forall (node_ok (S bd)) fa)) ->
@@ -914,11 +918,11 @@ Inductive node_ok : nat -> anode -> Prop :=
 Section AtDepth.
 Variable bd : nat.
 
-Definition PayN (p : span * list anode) : Prop := vspan t (fst p) /\ Forall (node_ok bd) (snd p).
+Definition PayN (p : span * list anode) : Prop := vspan t (fst p) /\ (bd < PARSE_DEPTH_MAX)%nat /\ Forall (node_ok (S bd)) (snd p).
 Definition PE (e : xexpr) : Prop := PayE PayN e.
 
 Lemma node_ok_payloads n : Forall PE (exprs_of n) ->
-  forall e asp body, In e (exprs_of n) -> In (asp, body) (gexpr_payloads e) -> vspan t asp /\ Forall (node_ok bd) body.
+  forall e asp body, In e (exprs_of n) -> In (asp, body) (gexpr_payloads e) -> vspan t asp /\ (bd < PARSE_DEPTH_MAX)%nat /\ Forall (node_ok (S bd)) body.
 Proof.
   intros H e asp body He Hp. rewrite Forall_forall in H. specialize (H e He). unfold PE, PayE in H.
   rewrite Forall_forall in H. exact (H _ Hp).
@@ -1035,16 +1039,17 @@ Qed.
 
 (* --- directives with expressions, under the hypothesis on the asm hook --- *)
 Section Dir.
-Variable hook : walker -> pres (span * list anode).
+Variable hook : nat -> walker -> pres (span * list anode).
 Variable f : nat.
-Hypothesis Hhook : forall w r w', wf t w -> hook w = POk r w' -> ext w w' /\ PayN r.
+Variable ed : nat.
+Hypothesis Hhook : forall d w r w', wf t w -> hook d w = POk r w' -> ext w w' /\ PayN r.
 
-Lemma pexpr_ok w e w' : wf t w -> pexpr hook f w = POk e w' -> ext w w' /\ PE e.
+Lemma pexpr_ok w e w' : wf t w -> pexpr hook f ed w = POk e w' -> ext w w' /\ PE e.
 Proof. intros Hw H. unfold pexpr in H. eapply gparse_expr_ok; eassumption. Qed.
 
 Ltac use_pexpr :=
   match goal with
-  | H : pexpr hook f ?w = POk _ ?w' |- _ => apply pexpr_ok in H; [destruct H; have_wf t w' | assumption]
+  | H : pexpr hook f ed ?w = POk _ ?w' |- _ => apply pexpr_ok in H; [destruct H; have_wf t w' | assumption]
   end.
 
 Ltac simple_node :=
@@ -1054,7 +1059,7 @@ Ltac simple_node :=
   | cbn [node_spans ospan_list opt_list]; fall; auto using vspan_join_s
   | cbn [exprs_of]; fall; auto ].
 
-Lemma parse_symbol_ok w n w' : wf t w -> parse_symbol hook f w = POk n w' -> ext w w' /\ node_ok bd n.
+Lemma parse_symbol_ok w n w' : wf t w -> parse_symbol hook f ed w = POk n w' -> ext w w' /\ node_ok bd n.
 Proof.
   intros Hw H. unfold parse_symbol in H. repeat pstep t.
   apply parse_dots_ok in Hm; [|assumption | exact I]. destruct Hm as [Hm Hsp]. have_wf t w0.
@@ -1065,7 +1070,7 @@ Proof.
     cbn [node_spans]. apply ospan_list_ok. repeat apply vospan_join; try assumption; cbn [vospan]; assumption.
 Qed.
 
-Lemma parse_const_ok w n w' : wf t w -> parse_const hook f w = POk n w' -> ext w w' /\ node_ok bd n.
+Lemma parse_const_ok w n w' : wf t w -> parse_const hook f ed w = POk n w' -> ext w w' /\ node_ok bd n.
 Proof.
   intros Hw H. unfold parse_const in H. repeat pstep t.
   all: apply parse_dots_ok in Hm0; [|assumption | exact I]; destruct Hm0 as [Hm0 Hsp]; have_wf t w1;
@@ -1074,7 +1079,7 @@ Proof.
        cbn [node_spans]; apply ospan_list_ok; apply vospan_join; [assumption | cbn [vospan]; assumption].
 Qed.
 
-Lemma data_elems_ok : forall fuel w acc r w', wf t w -> Forall PE acc -> data_elems hook f fuel w acc = POk r w' ->
+Lemma data_elems_ok : forall fuel w acc r w', wf t w -> Forall PE acc -> data_elems hook f ed fuel w acc = POk r w' ->
   ext w w' /\ Forall PE r.
 Proof.
   induction fuel as [|g IH]; intros w acc r w' Hw Ha H; [discriminate|].
@@ -1084,7 +1089,7 @@ Proof.
   - split; [ext_chain|]. apply Forall_app. split; [apply Forall_rev; assumption | fall; assumption].
 Qed.
 
-Lemma parse_fields_ok : forall fuel w acc r w', wf t w -> Forall field_ok acc -> parse_fields hook f fuel w acc = POk r w' ->
+Lemma parse_fields_ok : forall fuel w acc r w', wf t w -> Forall field_ok acc -> parse_fields hook f ed fuel w acc = POk r w' ->
   ext w w' /\ Forall field_ok r.
 Proof.
   induction fuel as [|g IH]; intros w acc r w' Hw Ha H; [discriminate|].
@@ -1107,7 +1112,7 @@ Proof.
       constructor; [apply Hfo; intros ? Eoe; first [discriminate Eoe | injection Eoe as <-; assumption] | constructor] ].
 Qed.
 
-Lemma parse_bankdef_ok header w n w' : vspan t header -> wf t w -> parse_bankdef hook f header w = POk n w' -> ext w w' /\ node_ok bd n.
+Lemma parse_bankdef_ok header w n w' : vspan t header -> wf t w -> parse_bankdef hook f ed header w = POk n w' -> ext w w' /\ node_ok bd n.
 Proof.
   intros Hh Hw H. unfold parse_bankdef in H.
   apply bind_ok' in H. destruct H as (nm & wa & Hma & H). cbv beta in H.
@@ -1129,14 +1134,14 @@ Proof.
     match goal with |- Forall PE (opt_list (field_expr ?o)) => destruct (field_expr o) eqn:?; cbn [opt_list]; fall; auto end.
 Qed.
 
-Lemma parse_fn_ok header w n w' : vspan t header -> wf t w -> parse_fn hook f header w = POk n w' -> ext w w' /\ node_ok bd n.
+Lemma parse_fn_ok header w n w' : vspan t header -> wf t w -> parse_fn hook f ed header w = POk n w' -> ext w w' /\ node_ok bd n.
 Proof.
   intros Hh Hw H. unfold parse_fn in H. repeat pstep t.
   apply fn_params_ok in Hm1; [|assumption]. have_wf t w2.
   repeat (first [pstep t | use_pexpr]). simple_node.
 Qed.
 
-Lemma parse_arule_ok is_sub w r w' : wf t w -> parse_arule hook f is_sub w = POk r w' -> ext w w' /\ rule_ok r.
+Lemma parse_arule_ok is_sub w r w' : wf t w -> parse_arule hook f ed is_sub w = POk r w' -> ext w w' /\ rule_ok r.
 Proof.
   intros Hw H. unfold parse_arule in H. cbv zeta in H.
   pose proof (xskip_ext w) as E0. have_wf t (xskip w).
@@ -1146,7 +1151,7 @@ Proof.
   all: repeat (first [pstep t | use_pexpr]); (split; [ext_chain|]); unfold rule_ok; cbn [ar_span ar_parts ar_expr]; auto.
 Qed.
 
-Lemma parse_arules_ok : forall fuel is_sub w acc r w', wf t w -> Forall rule_ok acc -> parse_arules hook f fuel is_sub w acc = POk r w' ->
+Lemma parse_arules_ok : forall fuel is_sub w acc r w', wf t w -> Forall rule_ok acc -> parse_arules hook f ed fuel is_sub w acc = POk r w' ->
   ext w w' /\ Forall rule_ok r.
 Proof.
   induction fuel as [|g IH]; intros is_sub w acc r w' Hw Ha H; [discriminate|].
@@ -1156,7 +1161,7 @@ Proof.
     apply IH in H; [| assumption | constructor; assumption]. destruct H. split; [ext_chain | assumption].
 Qed.
 
-Lemma parse_ruledef_ok is_sub header w n w' : vspan t header -> wf t w -> parse_ruledef hook f is_sub header w = POk n w' -> ext w w' /\ node_ok bd n.
+Lemma parse_ruledef_ok is_sub header w n w' : vspan t header -> wf t w -> parse_ruledef hook f ed is_sub header w = POk n w' -> ext w w' /\ node_ok bd n.
 Proof.
   intros Hh Hw H. unfold parse_ruledef in H.
   assert (exists w1 name nsp, (match xmaybe_expect_sp w TIdentifier with Some (w', s, t0) => (w', Some t0, s) | None => (w, None, header) end) = (w1, name, nsp)
@@ -1171,7 +1176,7 @@ Proof.
   - cbn [exprs_of]. apply rules_exprs_ok. assumption.
 Qed.
 
-Lemma parse_directive_ok k header w n w' : vspan t header -> wf t w -> parse_directive hook f k header w = POk n w' -> ext w w' /\ node_ok bd n.
+Lemma parse_directive_ok k header w n w' : vspan t header -> wf t w -> parse_directive hook f ed k header w = POk n w' -> ext w w' /\ node_ok bd n.
 Proof.
   intros Hh Hw H. destruct k; cbn [parse_directive] in H; try discriminate.
   - (* DData *) repeat pstep t. apply data_elems_ok in Hm; [|assumption|constructor]. destruct Hm. have_wf t w0. repeat pstep t.
@@ -1268,29 +1273,29 @@ Proof.
 Qed.
 
 Definition kinv (fuel : nat) : Prop :=
-  (forall bd nested w acc r w', wf t w -> Forall (node_ok t bd) acc -> parse_lines fuel bd nested w acc = POk r w' -> ext w w' /\ Forall (node_ok t bd) r) /\
-  (forall bd w r w', wf t w -> parse_line fuel bd w = POk r w' -> ext w w' /\ (forall n, r = Some n -> node_ok t bd n)) /\
-  (forall bd header w r w', vspan t header -> wf t w -> parse_if fuel bd header w = POk r w' -> ext w w' /\ node_ok t bd r) /\
-  (forall bd w r w', wf t w -> parse_braced fuel bd w = POk r w' -> ext w w' /\ (bd < PARSE_DEPTH_MAX)%nat /\ Forall (node_ok t (S bd)) r) /\
-  (forall bd w r w', wf t w -> parse_else fuel bd w = POk r w' ->
+  (forall bd ed nested w acc r w', wf t w -> Forall (node_ok t bd) acc -> parse_lines_d fuel bd ed nested w acc = POk r w' -> ext w w' /\ Forall (node_ok t bd) r) /\
+  (forall bd ed w r w', wf t w -> parse_line_d fuel bd ed w = POk r w' -> ext w w' /\ (forall n, r = Some n -> node_ok t bd n)) /\
+  (forall bd ed header w r w', vspan t header -> wf t w -> parse_if_d fuel bd ed header w = POk r w' -> ext w w' /\ node_ok t bd r) /\
+  (forall bd ed w r w', wf t w -> parse_braced_d fuel bd ed w = POk r w' -> ext w w' /\ (bd < PARSE_DEPTH_MAX)%nat /\ Forall (node_ok t (S bd)) r) /\
+  (forall bd ed w r w', wf t w -> parse_else_d fuel bd ed w = POk r w' ->
       ext w w' /\ (forall fa, r = Some fa -> Forall (node_ok t bd) fa \/ Forall (node_ok t (S bd)) fa)) /\
-  (forall bd w r w', wf t w -> asm_hook fuel bd w = POk r w' -> ext w w' /\ PayN t bd r).
+  (forall bd d w r w', wf t w -> asm_hook fuel bd d w = POk r w' -> ext w w' /\ PayN t bd r).
 
 Lemma kinv_all fuel : kinv fuel.
 Proof.
   induction fuel as [|f IH].
   - unfold kinv. repeat split; intros; discriminate.
   - destruct IH as (IHlines & IHline & IHif & IHbraced & IHelse & IHhook).
-    assert (Hhk : forall bd w r w', wf t w -> asm_hook f bd w = POk r w' -> ext w w' /\ PayN t bd r) by exact IHhook.
+    assert (Hhk : forall bd d w r w', wf t w -> asm_hook f bd d w = POk r w' -> ext w w' /\ PayN t bd r) by exact IHhook.
     unfold kinv. repeat match goal with |- _ /\ _ => split end.
     + (* parse_lines *)
-      intros bd nested w acc r w' Hw Ha H. rewrite parse_lines_S in H. repeat pstep t.
+      intros bd ed nested w acc r w' Hw Ha H. rewrite parse_lines_d_S in H. repeat pstep t.
       all: try (split; [apply ext_refl | apply Forall_rev; assumption]).
       all: apply IHline in Hm; [|assumption]; destruct Hm as [Hm Hn]; have_wf t w0;
            (apply IHlines in H; [destruct H; split; [ext_chain | assumption] | assumption |]);
            (destruct a; [constructor; [apply Hn; reflexivity | assumption] | assumption]).
     + (* parse_line *)
-      intros bd w r w' Hw H. rewrite parse_line_S in H.
+      intros bd ed w r w' Hw H. rewrite parse_line_d_S in H.
       destruct (xnext_useful_is w THash).
       * repeat pstep t.
         assert (vspan t (join_s (fst a) (fst a0))) as Hh by (apply vspan_join_s; assumption).
@@ -1307,39 +1312,43 @@ Proof.
            ++ apply (parse_instruction_ok bd) in Hm; [|assumption].
               destruct Hm; split; [ext_chain | intros n0 E9; injection E9 as <-; assumption].
     + (* parse_if *)
-      intros bd header w r w' Hh Hw H. rewrite parse_if_S in H. repeat pstep t.
+      intros bd ed header w r w' Hh Hw H. rewrite parse_if_d_S in H. repeat pstep t.
       eapply gparse_expr_ok in Hm; [| apply Hhk | assumption]. destruct Hm as [Hm Hc]. have_wf t w0.
       apply IHbraced in Hm0; [|assumption]. destruct Hm0 as (Hm0 & Hb & Ht). have_wf t w1.
       apply IHelse in Hm1; [|assumption]. destruct Hm1 as [Hm1 He].
       split; [ext_chain|]. apply node_ok_if; assumption.
     + (* parse_braced *)
-      intros bd w r w' Hw H. rewrite parse_braced_S in H. repeat pstep t.
+      intros bd ed w r w' Hw H. rewrite parse_braced_d_S in H. repeat pstep t.
       apply IHlines in Hm0; [|assumption|constructor]. destruct Hm0 as [Hm0 Hns]. have_wf t w1.
       repeat pstep t. split; [ext_chain|]. split; [|assumption].
       match goal with Hx : (PARSE_DEPTH_MAX <=? bd)%nat = false |- _ => apply Nat.leb_gt in Hx; exact Hx end.
     + (* parse_else *)
-      intros bd w r w' Hw H. rewrite parse_else_S in H. repeat pstep t.
+      intros bd ed w r w' Hw H. rewrite parse_else_d_S in H. repeat pstep t.
       * split; [apply ext_refl | intros fa E9; discriminate].
       * apply IHbraced in Hm1; [|assumption]. destruct Hm1 as (? & ? & ?). split; [ext_chain | intros fa E9; injection E9 as <-; right; assumption].
       * apply IHif in Hm1; [| apply vspan_join_s; assumption | assumption]. destruct Hm1.
         split; [ext_chain | intros fa E9; injection E9 as <-; left; constructor; [assumption | constructor]].
       * split; [apply ext_refl | intros fa E9; discriminate].
     + (* asm_hook *)
-      intros bd w r w' Hw H. rewrite asm_hook_S in H. repeat pstep t.
-      destruct (closing_brace_prefix (tail w1) 0) as (p & s & Tp & Np). rewrite Np in H.
-      set (inner := {| tail := take_bytes (bytes_len p) (tail w1); cur := cur w1; lim := cur w1 + bytes_len p |}) in H.
+      intros bd d w r w' Hw H. rewrite asm_hook_S in H.
+      apply bind_ok' in H. destruct H as (a & wa & Hma & H). cbv beta in H.
+      apply bind_ok' in H. destruct H as (b0 & w1 & Hmb & H). cbv beta zeta in H.
+      revert H. repeat pstep t. intros HH.
+      destruct (PARSE_DEPTH_MAX <=? bd)%nat eqn:Hbd; [discriminate|]. apply Nat.leb_gt in Hbd.
+      destruct (closing_brace_prefix (tail w1) 0) as (p & s & Tp & Np). rewrite Np in HH.
+      set (inner := {| tail := take_bytes (bytes_len p) (tail w1); cur := cur w1; lim := cur w1 + bytes_len p |}) in HH.
       assert (wf t inner) as Hin.
       { match goal with Hx : wf t w1 |- _ => destruct Hx as (pre & post & Ht & Hc & Hl) end. exists pre, (s ++ post). unfold inner. cbn [tail cur lim].
         rewrite Tp, take_blen_app. repeat split; [rewrite Ht, Tp, <- !app_assoc; reflexivity | exact Hc]. }
-      destruct (parse_lines f bd true inner []) as [ns wi| |] eqn:PL; try discriminate.
+      destruct (parse_lines_d f (S bd) d true inner []) as [ns wi| |] eqn:PL; try discriminate.
       apply IHlines in PL; [|assumption|constructor]. destruct PL as [_ Hns].
       pose proof (advance_ext w1 p s Tp) as Ea. have_wf t (advance w1 (bytes_len p)).
-      repeat pstep t. split; [ext_chain|]. split; cbn [fst snd]; [apply vspan_join_s; assumption | assumption].
+      revert HH. intros H9. repeat pstep t. split; [ext_chain|]. split; cbn [fst snd]; [apply vspan_join_s; assumption | split; assumption].
 Qed.
 
 Theorem parse_file_ok nodes w : parse_file t = POk nodes w -> Forall (node_ok t 0) nodes.
 Proof.
-  intros H. unfold parse_file in H. destruct (kinv_all (file_fuel t)) as (Hl & _).
+  intros H. unfold parse_file, parse_lines in H. destruct (kinv_all (file_fuel t)) as (Hl & _).
   apply Hl in H; [tauto | apply wf_start | constructor].
 Qed.
 
@@ -1352,7 +1361,7 @@ Proof.
     rewrite Forall_forall in Ht. eapply IH. apply Ht. exact Hin.
   - inversion Hok as [? ? _ _ Hif]; subst. destruct (Hif _ _ _ _ eq_refl) as (_ & _ & Hf).
     destruct (Hf _ eq_refl) as [Hf'|Hf']; rewrite Forall_forall in Hf'; eapply IH; apply Hf'; exact Hin.
-  - inversion Hok as [? ? _ Hpay _]; subst. destruct (Hpay _ _ _ He Hp) as [_ Hb].
+  - inversion Hok as [? ? _ Hpay _]; subst. destruct (Hpay _ _ _ He Hp) as (_ & _ & Hb).
     rewrite Forall_forall in Hb. eapply IH. apply Hb. exact Hin.
 Qed.
 End Knot.
@@ -1391,28 +1400,54 @@ Qed.
 (* ================================================================================================ *)
 (* H. C19: the block-nesting counter                                                                 *)
 
-(* the guard transcribed from directive_if.rs::parse_braced_block: at or above the limit a braced block is refused *)
+(* the guards transcribed from directive_if.rs::parse_braced_block and expr/parser.rs::parse_asm (one shared counter)
+   and from ExpressionParser::check_recursion_limit: at or above the limit the block / expression is refused *)
+Theorem C19_block_guard_d : forall fuel bd ed w, (PARSE_DEPTH_MAX <= bd)%nat ->
+  parse_braced_d fuel bd ed w = PErr \/ parse_braced_d fuel bd ed w = PFuel.
+Proof.
+  intros fuel bd ed w Hb. destruct fuel as [|f]; [right; reflexivity|].
+  rewrite parse_braced_d_S. destruct (xexpect w TBraceOpen) as [x w1| |]; cbn [bind]; [|left; reflexivity|right; reflexivity].
+  apply Nat.leb_le in Hb. rewrite Hb. left. reflexivity.
+Qed.
 Theorem C19_block_guard : forall fuel bd w, (PARSE_DEPTH_MAX <= bd)%nat ->
   parse_braced fuel bd w = PErr \/ parse_braced fuel bd w = PFuel.
+Proof. intros. unfold parse_braced. apply C19_block_guard_d. assumption. Qed.
+
+Theorem C19_asm_guard : forall fuel bd d w, (PARSE_DEPTH_MAX <= bd)%nat ->
+  asm_hook fuel bd d w = PErr \/ asm_hook fuel bd d w = PFuel.
 Proof.
-  intros fuel bd w Hb. destruct fuel as [|f]; [right; reflexivity|].
-  rewrite parse_braced_S. destruct (xexpect w TBraceOpen) as [x w1| |]; cbn [bind]; [|left; reflexivity|right; reflexivity].
-  apply Nat.leb_le in Hb. rewrite Hb. left. reflexivity.
+  intros fuel bd d w Hb. destruct fuel as [|f]; [right; reflexivity|].
+  rewrite asm_hook_S. destruct (xexpect_sp w TKeywordAsm) as [x w1| |]; cbn [bind]; [|left; reflexivity|right; reflexivity].
+  destruct (xexpect w1 TBraceOpen) as [y w2| |]; cbn [bind]; [|left; reflexivity|right; reflexivity].
+  cbv zeta. apply Nat.leb_le in Hb. rewrite Hb. left. reflexivity.
+Qed.
+
+(* an expression (and so everything inside it, asm bodies included: they start from the depth of their leaf) is refused
+   when the cumulative expression depth it starts from has reached the limit *)
+Theorem C19_expr_guard : forall A (hook : nat -> walker -> pres (span * A)) fuel d w, (PARSE_DEPTH_MAX <= d)%nat ->
+  gparse_expr hook fuel d w = PErr \/ gparse_expr hook fuel d w = PFuel.
+Proof.
+  intros A hook fuel d w Hd. destruct fuel as [|f]; [right; reflexivity|].
+  rewrite gparse_expr_S. cbv zeta. assert ((PARSE_DEPTH_MAX <? S d)%nat = true) as -> by (apply Nat.ltb_lt; lia).
+  left. reflexivity.
 Qed.
 
 Lemma depth_bound t : forall k l, nest_ge k l -> forall bd, Forall (node_ok t bd) l -> k = 0%nat \/ (bd + k <= PARSE_DEPTH_MAX)%nat.
 Proof.
-  induction 1 as [l | k sp c tr fl l Hin Hn IH | k sp c tr fa l Hin Hn IH | k n e asp body l Hin He Hp Hn IH]; intros bd Hl.
+  induction 1 as [l | k sp c tr fl l Hin Hn IH | k sp c tr fa l Hin Hn IH | k n e asp body l Hin He Hp Hn IH | k n e asp body l Hin He Hp Hn IH]; intros bd Hl.
   - left. reflexivity.
   - right. rewrite Forall_forall in Hl. specialize (Hl _ Hin). inversion Hl as [? ? _ _ Hif]; subst.
     destruct (Hif _ _ _ _ eq_refl) as (Hb & Ht & _). destruct (IH _ Ht) as [->|Hk]; lia.
   - rewrite Forall_forall in Hl. specialize (Hl _ Hin). inversion Hl as [? ? _ _ Hif]; subst.
     destruct (Hif _ _ _ _ eq_refl) as (Hb & _ & Hf). destruct (Hf _ eq_refl) as [Hf'|Hf']; destruct (IH _ Hf') as [->|Hk]; auto; right; lia.
   - rewrite Forall_forall in Hl. specialize (Hl _ Hin). inversion Hl as [? ? _ Hpay _]; subst.
-    destruct (Hpay _ _ _ He Hp) as [_ Hb]. exact (IH _ Hb).
+    destruct (Hpay _ _ _ He Hp) as (_ & Hb & Hbody). destruct (IH _ Hbody) as [->|Hk]; auto; right; lia.
+  - right. rewrite Forall_forall in Hl. specialize (Hl _ Hin). inversion Hl as [? ? _ Hpay _]; subst.
+    destruct (Hpay _ _ _ He Hp) as (_ & Hb & Hbody). destruct (IH _ Hbody) as [->|Hk]; lia.
 Qed.
 
-(* no accepted text contains more than PARSE_DEPTH_MAX nested #if blocks, also across asm blocks and #else/#elif arms *)
+(* no accepted text contains more than PARSE_DEPTH_MAX nested blocks, #if arms and asm blocks counted together, also
+   across #else/#elif arms *)
 Theorem C19_block_depth : forall t nodes w k, parse_file t = POk nodes w -> nest_ge k nodes -> (k <= PARSE_DEPTH_MAX)%nat.
 Proof.
   intros t nodes w k H Hn. apply parse_file_ok in H. destruct (depth_bound t k nodes Hn 0%nat H) as [->|Hk]; lia.
@@ -1439,12 +1474,25 @@ Example C19_block_depth_nonvacuous :
   accepted (parse_file (if_nest 50)) = true /\ rejected (parse_file (if_nest 51)) = true.
 Proof. split; vm_compute; reflexivity. Qed.
 
-(* the nesting of asm blocks through expressions and the length of #elif chains are NOT counted: the recursion depth of
-   the line parser is not bounded by the block limit + the expression limit (known findings F56 / F57) *)
-Example C19_depth_unbounded_witnesses :
-  accepted (parse_file (asm_nest 120)) = true /\ accepted (parse_file (elif_chain 120)) = true.
+(* asm blocks share the counter: exactly the limit is accepted, one more is rejected; alternating #if / asm too *)
+Definition alt_nest (k : nat) : text :=      (* ("#if 1\n{\nx=asm{\n") ^ k ++ ("}\n}\n") ^ k *)
+  rep k ([35;105;102;32;49;10;123;10] ++ [120;61;97;115;109;123;10]) ++ rep k [125;10;125;10].
+Example C19_asm_depth_nonvacuous :
+  accepted (parse_file (asm_nest 50)) = true /\ rejected (parse_file (asm_nest 51)) = true /\
+  accepted (parse_file (alt_nest 25)) = true /\ rejected (parse_file (alt_nest 26)) = true.
+Proof. repeat split; vm_compute; reflexivity. Qed.
+
+(* the expression depth is cumulative across asm blocks: "x=((((((((((asm{\n" repeated k times, 10 parentheses each *)
+Definition paren_asm_nest (k : nat) : text :=
+  rep k ([120;61] ++ rep 10 [40] ++ [97;115;109;123;10]) ++ [110;111;112;10] ++ rep k ([125] ++ rep 10 [41] ++ [10]).
+Example C19_expr_depth_cumulative_nonvacuous :
+  accepted (parse_file (paren_asm_nest 4)) = true /\ rejected (parse_file (paren_asm_nest 5)) = true.
 Proof. split; vm_compute; reflexivity. Qed.
 
+(* the length of an #elif chain is still NOT counted (the code recurses parse -> parse_else_blocks -> parse once per
+   #elif): known finding F56 *)
+Example C19_elif_chain_unbounded_witness : accepted (parse_file (elif_chain 120)) = true.
+Proof. vm_compute; reflexivity. Qed.
 
 (* `; é` / `#d8 "ü", asm { ld é }` / `.l: #if l { x = 1 ; ü` / ` }` : multi-byte characters before and inside the nodes;
    the node inside the asm block and the node inside the #if arm are sub-nodes with their own (valid) spans *)
@@ -1497,8 +1545,8 @@ Ltac stab_core IHtac :=
 
 Section ExprStable.
 Context {A : Type}.
-Variables h h' : walker -> pres (span * A).
-Hypothesis Hh : forall w, stable (h w) (h' w).
+Variables h h' : nat -> walker -> pres (span * A).
+Hypothesis Hh : forall d w, stable (h d w) (h' d w).
 
 Definition sinv (f : nat) : Prop :=
   (forall d w, stable (gparse_expr h f d w) (gparse_expr h' (S f) d w)) /\
@@ -1557,37 +1605,38 @@ Proof.
 Qed.
 
 Section DirStable.
-Variables h h' : walker -> pres (span * list anode).
-Hypothesis Hh : forall w, stable (h w) (h' w).
+Variables h h' : nat -> walker -> pres (span * list anode).
+Hypothesis Hh : forall d w, stable (h d w) (h' d w).
 Variable f : nat.
+Variable ed : nat.
 
-Lemma pexpr_stable w : stable (pexpr h f w) (pexpr h' (S f) w).
+Lemma pexpr_stable w : stable (pexpr h f ed w) (pexpr h' (S f) ed w).
 Proof. unfold pexpr. apply gparse_expr_stable. exact Hh. Qed.
 
 Ltac dstab extra :=
   stab_core ltac:(first [apply pexpr_stable | apply parse_dots_stable | apply fn_params_stable | apply apattern_stable | extra]).
 
-Lemma data_elems_stable : forall g w acc, stable (data_elems h f g w acc) (data_elems h' (S f) (S g) w acc).
+Lemma data_elems_stable : forall g w acc, stable (data_elems h f ed g w acc) (data_elems h' (S f) ed (S g) w acc).
 Proof.
   induction g as [|g IH]; intros; [apply stable_fuel|].
-  rewrite (data_elems_S h f g), (data_elems_S h' (S f) (S g)). dstab ltac:(apply IH).
+  rewrite (data_elems_S h f ed g), (data_elems_S h' (S f) ed (S g)). dstab ltac:(apply IH).
 Qed.
-Lemma parse_fields_stable : forall g w acc, stable (parse_fields h f g w acc) (parse_fields h' (S f) (S g) w acc).
+Lemma parse_fields_stable : forall g w acc, stable (parse_fields h f ed g w acc) (parse_fields h' (S f) ed (S g) w acc).
 Proof.
   induction g as [|g IH]; intros; [apply stable_fuel|].
-  rewrite (parse_fields_S h f g), (parse_fields_S h' (S f) (S g)). dstab ltac:(apply IH).
+  rewrite (parse_fields_S h f ed g), (parse_fields_S h' (S f) ed (S g)). dstab ltac:(apply IH).
 Qed.
-Lemma parse_arule_stable is_sub w : stable (parse_arule h f is_sub w) (parse_arule h' (S f) is_sub w).
+Lemma parse_arule_stable is_sub w : stable (parse_arule h f ed is_sub w) (parse_arule h' (S f) ed is_sub w).
 Proof. unfold parse_arule. dstab fail. Qed.
-Lemma parse_arules_stable : forall g is_sub w acc, stable (parse_arules h f g is_sub w acc) (parse_arules h' (S f) (S g) is_sub w acc).
+Lemma parse_arules_stable : forall g is_sub w acc, stable (parse_arules h f ed g is_sub w acc) (parse_arules h' (S f) ed (S g) is_sub w acc).
 Proof.
   induction g as [|g IH]; intros; [apply stable_fuel|].
-  rewrite (parse_arules_S h f g), (parse_arules_S h' (S f) (S g)). dstab ltac:(first [apply parse_arule_stable | apply IH]).
+  rewrite (parse_arules_S h f ed g), (parse_arules_S h' (S f) ed (S g)). dstab ltac:(first [apply parse_arule_stable | apply IH]).
 Qed.
 
-Lemma parse_symbol_stable w : stable (parse_symbol h f w) (parse_symbol h' (S f) w).
+Lemma parse_symbol_stable w : stable (parse_symbol h f ed w) (parse_symbol h' (S f) ed w).
 Proof. unfold parse_symbol. dstab fail. Qed.
-Lemma parse_directive_stable k header w : stable (parse_directive h f k header w) (parse_directive h' (S f) k header w).
+Lemma parse_directive_stable k header w : stable (parse_directive h f ed k header w) (parse_directive h' (S f) ed k header w).
 Proof.
   destruct k; cbn [parse_directive]; unfold expr_directive, parse_bankdef, parse_const, parse_fn, parse_ruledef;
     dstab ltac:(first [apply data_elems_stable | apply parse_fields_stable | apply parse_arules_stable]).
@@ -1595,12 +1644,12 @@ Qed.
 End DirStable.
 
 Definition kstab (f : nat) : Prop :=
-  (forall bd nested w acc, stable (parse_lines f bd nested w acc) (parse_lines (S f) bd nested w acc)) /\
-  (forall bd w, stable (parse_line f bd w) (parse_line (S f) bd w)) /\
-  (forall bd header w, stable (parse_if f bd header w) (parse_if (S f) bd header w)) /\
-  (forall bd w, stable (parse_braced f bd w) (parse_braced (S f) bd w)) /\
-  (forall bd w, stable (parse_else f bd w) (parse_else (S f) bd w)) /\
-  (forall bd w, stable (asm_hook f bd w) (asm_hook (S f) bd w)).
+  (forall bd ed nested w acc, stable (parse_lines_d f bd ed nested w acc) (parse_lines_d (S f) bd ed nested w acc)) /\
+  (forall bd ed w, stable (parse_line_d f bd ed w) (parse_line_d (S f) bd ed w)) /\
+  (forall bd ed header w, stable (parse_if_d f bd ed header w) (parse_if_d (S f) bd ed header w)) /\
+  (forall bd ed w, stable (parse_braced_d f bd ed w) (parse_braced_d (S f) bd ed w)) /\
+  (forall bd ed w, stable (parse_else_d f bd ed w) (parse_else_d (S f) bd ed w)) /\
+  (forall bd d w, stable (asm_hook f bd d w) (asm_hook (S f) bd d w)).
 
 Lemma kstab_all f : kstab f.
 Proof.
@@ -1608,24 +1657,28 @@ Proof.
   - unfold kstab. repeat split; intros; apply stable_fuel.
   - destruct IH as (K1 & K2 & K3 & K4 & K5 & K6).
     unfold kstab. repeat match goal with |- _ /\ _ => split end; intros.
-    + rewrite (parse_lines_S f), (parse_lines_S (S f)). stab_core ltac:(first [apply K2 | apply K1]).
-    + rewrite (parse_line_S f), (parse_line_S (S f)).
+    + rewrite (parse_lines_d_S f), (parse_lines_d_S (S f)). stab_core ltac:(first [apply K2 | apply K1]).
+    + rewrite (parse_line_d_S f), (parse_line_d_S (S f)).
       stab_core ltac:(first [apply K3 | apply parse_directive_stable; intros; apply K6 | apply parse_symbol_stable; intros; apply K6]).
-    + rewrite (parse_if_S f), (parse_if_S (S f)).
+    + rewrite (parse_if_d_S f), (parse_if_d_S (S f)).
       stab_core ltac:(first [apply gparse_expr_stable; intros; apply K6 | apply K4 | apply K5]).
-    + rewrite (parse_braced_S f), (parse_braced_S (S f)). stab_core ltac:(first [apply K1]).
-    + rewrite (parse_else_S f), (parse_else_S (S f)). stab_core ltac:(first [apply K4 | apply K3]).
+    + rewrite (parse_braced_d_S f), (parse_braced_d_S (S f)). stab_core ltac:(first [apply K1]).
+    + rewrite (parse_else_d_S f), (parse_else_d_S (S f)). stab_core ltac:(first [apply K4 | apply K3]).
     + rewrite (asm_hook_S f), (asm_hook_S (S f)). stab_core ltac:(first [apply K1]).
+Qed.
+
+Lemma parse_lines_d_stable_le : forall f f', (f <= f')%nat -> forall bd ed nested w acc,
+  parse_lines_d f bd ed nested w acc <> PFuel -> parse_lines_d f' bd ed nested w acc = parse_lines_d f bd ed nested w acc.
+Proof.
+  induction 1 as [|f' Hle IH]; intros bd ed nested w acc Hne; [reflexivity|].
+  destruct (kstab_all f') as (K1 & _). destruct (K1 bd ed nested w acc) as [E|E].
+  - exfalso. apply Hne. rewrite <- (IH _ _ _ _ _ Hne). exact E.
+  - rewrite E. apply IH. exact Hne.
 Qed.
 
 Lemma parse_lines_stable_le : forall f f', (f <= f')%nat -> forall bd nested w acc,
   parse_lines f bd nested w acc <> PFuel -> parse_lines f' bd nested w acc = parse_lines f bd nested w acc.
-Proof.
-  induction 1 as [|f' Hle IH]; intros bd nested w acc Hne; [reflexivity|].
-  destruct (kstab_all f') as (K1 & _). destruct (K1 bd nested w acc) as [E|E].
-  - exfalso. apply Hne. rewrite <- (IH _ _ _ _ Hne). exact E.
-  - rewrite E. apply IH. exact Hne.
-Qed.
+Proof. intros. unfold parse_lines in *. apply parse_lines_d_stable_le; assumption. Qed.
 
 (* C03 (partial): the fuel of parse_file is only a termination device.  Whenever ANY amount of fuel lets the line
    parser answer (accept or reject), every larger amount gives the very same answer; in particular if parse_file t
